@@ -57,6 +57,10 @@ def build_archives():
     mz = m + [("empty", b"")]
     out["AZ"] = {"blob": write(chains.py_filters("LZMA2"), mz, header="encoded"), "password": None, "members": mz}
     out["AE"] = {"blob": write(chains.py_filters("COPY+AES"), m, password=PW), "password": PW, "members": m}
+    # several coders in one folder that liblzma decodes natively as one chain (py7zr's default filters are BCJ+LZMA2):
+    # the decoder is rebuilt from the folder's coder list every time the folder is decoded again (seeded change C12e)
+    out["AB"] = {"blob": write(chains.py_filters("X86+LZMA2"), m, header="encoded"), "password": None, "members": m}
+    out["AD"] = {"blob": write(chains.py_filters("DELTA+LZMA2"), m), "password": None, "members": m}
     # no streams at all: a directory and an empty file, written by the reference writer without a MainStreamsInfo section
     # (what 7-Zip writes for such a tree; py7zr's own writer always emits the section)
     from mc.ref import ref7z
@@ -333,6 +337,8 @@ def main(tier="quick", seed=0, only=None):
             configs.append((aid, mode, OPS, depth, None, True))
     for mode in ("path", "bytesio"):
         configs.append(("AN", mode, OPS, min(depth, 4), None, True))
+    configs.append(("AB", "path", OPS, min(depth, 5), None, True))
+    configs.append(("AD", "bytesio", OPS, min(depth, 4), None, True))
     configs.append(("A3", "path", OPS, depth, 8, True))  # small extraction chunk: several decompress() rounds per member
     # soundness cross-check of the state merging: the same language with dedup OFF (every history is its own state)
     configs.append(("A3", "path", OPS, 3 if tier == "quick" else 4, None, False))
@@ -374,8 +380,8 @@ def main(tier="quick", seed=0, only=None):
     return chk.finish(
         rule=(
             f"BFS over call histories of length <= {depth} in the property's language (extract/extractall after a decoding call only after "
-            "reset(); test/testzip anywhere) over 12 calls, on 5 intact archives (1 folder, 3 folders from append sessions, LZMA2 solid "
-            "with an empty member, Copy+7zAES, and a reference-written archive without any stream: depth <= 4) x opened by path / BytesIO / file object (+ one configuration with an 8-byte extraction "
+            "reset(); test/testzip anywhere) over 12 calls, on 7 intact archives (1 folder, 3 folders from append sessions, LZMA2 solid "
+            "with an empty member, Copy+7zAES, BCJ+LZMA2 and Delta+LZMA2 (depth <= 5 / 4), and a reference-written archive without any stream: depth <= 4) x opened by path / BytesIO / file object (+ one configuration with an 8-byte extraction "
             "chunk), and over {getnames,test,testzip,extractall,reset} on 3 damaged copies. Every history is replayed on a fresh real "
             "SevenZipFile three times (ended by close, by with-exit, by an injected exception). Oracles: last call's result == result on a "
             "freshly opened archive; test() is True/None and testzip() None on intact archives; damaged copies are never certified; SHA-256 of the archive unchanged after each ending; watchdog. "
